@@ -74,6 +74,8 @@ func main() {
 			}
 		}
 		os.Exit(runCheck(id, tier, only))
+	case "anchors":
+		writeAnchors()
 	case "replay":
 		if len(os.Args) < 3 {
 			usage()
